@@ -196,6 +196,29 @@ fn minimize_server(ctx: &mut Ctx, scenario: Scenario, first: CaseReport) -> (Sce
     let mut best_plan = plan_of(&first);
     let mut best_report = first;
 
+    // How schedule-dependent is this violation? If the default schedule shows it, one try per
+    // candidate is enough; otherwise estimate the hit rate over seeded schedules and search
+    // accordingly, so that a candidate is not rejected just because 12 schedules missed it.
+    let tries = {
+        let case = Case::Server { scenario: best_sc.clone(), sched_seed: 0 };
+        if ctx.fails(&case, Some(vec![])).is_some() {
+            4
+        } else {
+            let mut rng = Rng::new(0xE571);
+            let mut hits = 0usize;
+            let n = 80;
+            for i in 0..n {
+                let mut sc = best_sc.clone();
+                sc.knobs.strategy = if i % 2 == 0 { Strategy::Sticky { den: 4 } } else { Strategy::Random };
+                if ctx.fails(&Case::Server { scenario: sc, sched_seed: rng.next_u64() }, None).is_some() {
+                    hits += 1;
+                }
+            }
+            let rate = (hits.max(1)) as f64 / n as f64;
+            ((4.0 / rate).ceil() as usize).clamp(12, 600)
+        }
+    };
+
     // 1. ops
     let idx: Vec<usize> = (0..best_sc.ops.len()).collect();
     let base_ops = best_sc.ops.clone();
@@ -205,7 +228,7 @@ fn minimize_server(ctx: &mut Ctx, scenario: Scenario, first: CaseReport) -> (Sce
     let kept = ddmin(idx, &mut |keep: &[usize]| {
         let mut sc = base.clone();
         sc.ops = keep_ops(&base_ops, keep);
-        match ctx.fails_some_schedule(&sc, &plan0, 12) {
+        match ctx.fails_some_schedule(&sc, &plan0, tries) {
             Some((p, r)) => {
                 found = Some((keep.to_vec(), p, r));
                 true
@@ -234,7 +257,7 @@ fn minimize_server(ctx: &mut Ctx, scenario: Scenario, first: CaseReport) -> (Sce
                 for p in paths {
                     let mut sc2 = sc.clone();
                     sc2.disk0.remove(&p);
-                    if let Some((pl, r)) = ctx.fails_some_schedule(&sc2, &best_plan, 4) {
+                    if let Some((pl, r)) = ctx.fails_some_schedule(&sc2, &best_plan, tries) {
                         sc = sc2;
                         best_plan = pl;
                         best_report = r;
@@ -243,7 +266,7 @@ fn minimize_server(ctx: &mut Ctx, scenario: Scenario, first: CaseReport) -> (Sce
             }
         }
         if sc != best_sc {
-            if let Some((pl, r)) = ctx.fails_some_schedule(&sc, &best_plan, 4) {
+            if let Some((pl, r)) = ctx.fails_some_schedule(&sc, &best_plan, tries) {
                 best_sc = sc;
                 best_plan = pl;
                 best_report = r;
@@ -271,7 +294,7 @@ fn minimize_server(ctx: &mut Ctx, scenario: Scenario, first: CaseReport) -> (Sce
             }
             // request offsets may now point past the end: clamp
             clamp_offsets(&mut sc);
-            match ctx.fails_some_schedule(&sc, &plan0, 2) {
+            match ctx.fails_some_schedule(&sc, &plan0, tries.min(60)) {
                 Some((p, r)) => {
                     last_ok = Some((t.to_string(), p, r));
                     true
